@@ -337,14 +337,25 @@ static void *own_key(enum mode m, const uint8_t *b, size_t n, int null_ptr, void
             return aws_string_new_from_array(vh_alloc(), b, n);
         case M_CURSOR:
         case M_CURSOR_IC: {
+            /* null_ptr packs three things: bit 0 = NULL pointer for an empty cursor, bits 1-2 = offset of the key bytes
+             * from a 4-aligned address, bits 3.. = a byte placed right behind the key (0 = none, block is exact-size).
+             * Equal keys must hash equally wherever they lie and whatever follows them. */
+            int align = (null_ptr >> 1) & 3, guard = null_ptr >> 3;
             struct aws_byte_cursor *cur = malloc(sizeof(*cur));
-            uint8_t *bytes = (n == 0 && null_ptr) ? NULL : malloc(n ? n : 1);
-            if (n) {
-                memcpy(bytes, b, n);
+            uint8_t *base = NULL, *bytes = NULL;
+            if (!(n == 0 && (null_ptr & 1))) {
+                base = malloc(n + (size_t)align + (guard ? 1 : 0) + ((n + align) ? 0 : 1));
+                bytes = base + align;
+                if (n) {
+                    memcpy(bytes, b, n);
+                }
+                if (guard) {
+                    bytes[n] = (uint8_t)guard;
+                }
             }
             cur->ptr = bytes;
             cur->len = n;
-            *backing = bytes;
+            *backing = base;
             return cur;
         }
         case M_PTR:
